@@ -9,19 +9,158 @@ import Girc.Proofs.SimMode
 -/
 namespace Girc.Proofs.SimMain
 open Girc Girc.Model Girc.Spec
+open Girc.Proofs.InvHandlers Girc.Proofs.InvBase
+
+/-- "returns without a fault, in a state related to `r'`" for the dispatcher's result type. -/
+def SimC (r' : Ref) (m : M (CState × List Out)) : Prop := ∃ cs' outs, m = .ok (cs', outs) ∧ Sim cs'.st r'
+
+theorem simC_ite {r' : Ref} {c : Prop} [Decidable c] {a b : M (CState × List Out)}
+    (ha : c → SimC r' a) (hb : ¬c → SimC r' b) : SimC r' (if c then a else b) := by
+  by_cases hc : c
+  · rw [if_pos hc]; exact ha hc
+  · rw [if_neg hc]; exact hb hc
+
+/-- The dispatcher, on post-tag states. -/
+theorem sim_handleCommand {cs : CState} {r : Ref} (cfg : Cfg) (hT : cfg.disableTracking = false) (e : Event)
+    (h : Sim cs.st r) (hc : r.conformant cfg e = true) :
+    SimC (r.cmdStep cfg e) (handleCommand cfg cs e) := by
+  unfold handleCommand
+  extract_lets st ret c
+  have h' : Sim st r := h
+  have hret : ∀ (s : St) (o : List Out), Sim s (r.cmdStep cfg e) → SimC (r.cmdStep cfg e) (ret s o) :=
+    fun s o hs => ⟨_, _, rfl, hs⟩
+  have hbind : ∀ (m : M St), (∃ s, m = .ok s ∧ Sim s (r.cmdStep cfg e)) →
+      SimC (r.cmdStep cfg e) (m >>= fun x => ret x []) := by
+    intro m ⟨s, hm, hs⟩
+    rw [hm]
+    exact hret s [] hs
+  have hother : e.command ∉ [c001, cJOIN, cPART, cKICK, cQUIT, cNICK, c353, cMODE, c324, c354, c352, cTOPIC, c332,
+      cAWAY, cACCOUNT, cCHGHOST, c004, c005, c375, c372] → Sim st (r.cmdStep cfg e) := by
+    intro hn
+    rw [SimAttr.cmdStep_other cfg r e hn]
+    exact h'
+  have hcdef : c = e.command := rfl
+  clear_value ret c
+  subst hcdef
+  -- PING
+  refine simC_ite (fun hp => hret _ _ (hother (by rw [hp]; decide))) fun n1 => ?_
+  -- 001
+  refine simC_ite (fun hp => hret _ _ (SimAttr.sim_connect cfg e h' hc hp)) fun n2 => ?_
+  -- 433 / 436 / 437
+  refine simC_ite (fun hp => hret _ _ (hother ?_)) fun n3 => ?_
+  · simp only [Bool.or_eq_true, decide_eq_true_eq] at hp
+    rcases hp with (hp | hp) | hp <;> (rw [hp]; decide)
+  -- tracking disabled: excluded
+  refine simC_ite (fun hp => absurd hp (by simp [hT])) fun _ => ?_
+  -- JOIN
+  refine simC_ite (fun hp => ?_) fun n4 => ?_
+  · obtain ⟨s, o, hj, hs⟩ := SimJoin.sim_JOIN cfg e h' hc hp
+    rw [hj]
+    exact hret s o hs
+  refine simC_ite (fun hp => hbind _ (SimLeave.sim_PART cfg e h' hc hp)) fun n5 => ?_
+  refine simC_ite (fun hp => hbind _ (SimLeave.sim_KICK cfg e h' hc hp)) fun n6 => ?_
+  refine simC_ite (fun hp => hbind _ (SimLeave.sim_QUIT cfg e h' hc hp)) fun n7 => ?_
+  refine simC_ite (fun hp => hbind _ (SimNick.sim_NICK cfg e h' hc hp)) fun n8 => ?_
+  refine simC_ite (fun hp => hbind _ (SimJoin.sim_NAMES cfg e h' hc hp)) fun n9 => ?_
+  refine simC_ite (fun hp => hbind _ (SimMode.sim_MODE cfg e h' (by simpa using hp))) fun n10 => ?_
+  refine simC_ite (fun hp => hbind _ (SimAttr.sim_WHO cfg e h' (by simpa using hp))) fun n11 => ?_
+  refine simC_ite (fun hp => hbind _ (SimAttr.sim_TOPIC cfg e h' (by simpa using hp))) fun n12 => ?_
+  refine simC_ite (fun hp => hbind _ (SimAttr.sim_MYINFO cfg e h' hp)) fun n13 => ?_
+  refine simC_ite (fun hp => hret _ _ (SimAttr.sim_ISUPPORT cfg e h' hp)) fun n14 => ?_
+  refine simC_ite (fun hp => hret _ _ (SimAttr.sim_MOTD cfg e h' (by simpa using hp))) fun n15 => ?_
+  -- CAP
+  refine simC_ite (fun hp => ?_) fun n16 => ?_
+  · have hcap := SimAttr.sim_CAP cfg e h' hp
+    rcases hr : handleCAP cfg st e with ⟨s, o⟩
+    rw [hr] at hcap
+    exact hret s o hcap
+  refine simC_ite (fun hp => hret _ _ (SimAttr.sim_CHGHOST cfg e h' hp)) fun n17 => ?_
+  refine simC_ite (fun hp => hret _ _ (SimAttr.sim_AWAY cfg e h' hp)) fun n18 => ?_
+  refine simC_ite (fun hp => hret _ _ (SimAttr.sim_ACCOUNT cfg e h' hp)) fun n19 => ?_
+  -- AUTHENTICATE / 903
+  refine simC_ite (fun hp => ?_) fun n20 => ?_
+  · have hs := handleSASL_st cfg cs e
+    rcases hr : handleSASL cfg cs e with ⟨cs', o⟩
+    rw [hr] at hs
+    refine ⟨cs', o, rfl, ?_⟩
+    have hs' : cs'.st = cs.st := hs
+    rw [hs']
+    apply hother
+    simp only [Bool.or_eq_true, decide_eq_true_eq] at hp
+    rcases hp with hp | hp <;> (rw [hp]; decide)
+  -- everything else
+  have hrest : e.command ∉ [c001, cJOIN, cPART, cKICK, cQUIT, cNICK, c353, cMODE, c324, c354, c352, cTOPIC, c332,
+      cAWAY, cACCOUNT, cCHGHOST, c004, c005, c375, c372] := by
+    simp only [Bool.or_eq_true, decide_eq_true_eq, not_or] at n10 n11 n12 n15
+    simp only [List.mem_cons, List.not_mem_nil, or_false, not_or]
+    exact ⟨n2, n4, n5, n6, n7, n8, n9, n10.1, n10.2, n11.2, n11.1, n12.1, n12.2, n18, n19, n17, n13, n14,
+      n15.1, n15.2⟩
+  exact simC_ite (fun _ => hret _ _ (hother hrest)) fun _ => hret _ _ (hother hrest)
+
+/-- The echo rule only fires for PRIVMSG/NOTICE, which the reference does not interpret. -/
+theorem echo_other (cfg : Cfg) (st : St) (e : Event) (h : isEcho cfg st e = true) :
+    e.command ∉ [c001, cJOIN, cPART, cKICK, cQUIT, cNICK, c353, cMODE, c324, c354, c352, cTOPIC, c332,
+      cAWAY, cACCOUNT, cCHGHOST, c004, c005, c375, c372] := by
+  unfold isEcho at h
+  simp only [Bool.and_eq_true, Bool.or_eq_true, decide_eq_true_eq] at h
+  rcases h.1.2 with hp | hp <;> (rw [hp]; decide)
 
 /-- One event: the implementation model returns without a fault and stays related to the reference. -/
 theorem sim_handleEvent {cs : CState} {r : Ref} (cfg : Cfg) (hT : cfg.disableTracking = false) (e : Event)
     (time idle : Bytes) (h : Sim cs.st r) (hc : r.conformant cfg e = true) :
-    ∃ cs' outs, handleEvent cfg cs e time idle = .ok (cs', outs) ∧ Sim cs'.st (r.step cfg e) := by sorry
+    ∃ cs' outs, handleEvent cfg cs e time idle = .ok (cs', outs) ∧ Sim cs'.st (r.step cfg e) := by
+  unfold handleEvent
+  extract_lets echo cs1 ctcp jp
+  have hcs1 : cs1.st = handleTags cs.st e := by
+    unfold cs1
+    rw [hT]
+    rfl
+  have h1 : Sim cs1.st (r.tagStep e) := by
+    rw [hcs1]
+    exact SimBase.sim_tagStep e h
+  have hc1 : (r.tagStep e).conformant cfg e = true := by
+    rw [SimBase.conformant_tagStep]
+    exact hc
+  have hecho : echo = true → Sim cs1.st (r.step cfg e) := by
+    intro he
+    unfold Ref.step
+    rw [SimAttr.cmdStep_other cfg (r.tagStep e) e (echo_other cfg cs.st e he)]
+    exact h1
+  have hjp : ∀ x : CState × List Out, Sim x.1.st (r.step cfg e) →
+      ∃ cs' outs, jp x = .ok (cs', outs) ∧ Sim cs'.st (r.step cfg e) :=
+    fun ⟨_, _⟩ hx => ⟨_, _, rfl, hx⟩
+  clear_value jp cs1 echo
+  split
+  · next he => exact hjp _ (hecho he)
+  · obtain ⟨cs', outs, hcm, hs⟩ := sim_handleCommand cfg hT e h1 hc1
+    rw [hcm]
+    exact hjp _ hs
 
 theorem sim_runEvents (cfg : Cfg) (hT : cfg.disableTracking = false) (es : List Event) :
     ∀ (cs : CState) (r : Ref), Sim cs.st r → conformantHistory cfg r es = true →
-      ∃ cs', runEvents cfg cs es = .ok cs' ∧ Sim cs'.st (es.foldl (Ref.step cfg) r) := by sorry
+      ∃ cs', runEvents cfg cs es = .ok cs' ∧ Sim cs'.st (es.foldl (Ref.step cfg) r) := by
+  induction es with
+  | nil =>
+    intro cs r h _
+    exact ⟨cs, rfl, h⟩
+  | cons e rest ih =>
+    intro cs r h hch
+    unfold conformantHistory at hch
+    rw [Bool.and_eq_true] at hch
+    obtain ⟨cs1, outs, he, hs⟩ := sim_handleEvent cfg hT e [] [] h hch.1
+    obtain ⟨cs', hr, hs'⟩ := ih cs1 (r.step cfg e) hs hch.2
+    refine ⟨cs', ?_, ?_⟩
+    · unfold runEvents at hr ⊢
+      rw [List.foldlM_cons, he]
+      exact hr
+    · rw [List.foldl_cons]
+      exact hs'
 
 /-- C04: after any conformant history, everything the state API shows equals the reference model. -/
 theorem refinement (cfg : Cfg) (hT : cfg.disableTracking = false) (es : List Event)
     (hc : conformantHistory cfg {} es = true) :
-    ∃ cs, runEvents cfg {} es = .ok cs ∧ observe cs.st = (Ref.run cfg es).observe := by sorry
+    ∃ cs, runEvents cfg {} es = .ok cs ∧ observe cs.st = (Ref.run cfg es).observe := by
+  obtain ⟨cs, hr, hs⟩ := sim_runEvents cfg hT es {} {} SimBase.sim_init hc
+  exact ⟨cs, hr, SimBase.observe_eq hs⟩
 
 end Girc.Proofs.SimMain
